@@ -47,12 +47,56 @@ def special_stroke(rng):
     return '<svg xmlns="http://www.w3.org/2000/svg" viewBox="0 0 160 140"><defs>%s%s</%s></defs>%s</svg>' % (g, stops, tag, wrap)
 
 
+def special_template_order(rng):
+    """a gradient that takes its gradientTransform (a translation, which the conversion folds into coordinates) and stops
+    from a template written before or AFTER it in the document"""
+    tx, ty = rng.choice([(5, 0), (12, 7), (0, 9), (20, 20)])
+    tr = rng.choice(["translate(%d %d)" % (tx, ty), "translate(%d %d) scale(1.5)" % (tx, ty), "matrix(1 0 0 1 %d %d)" % (tx, ty)])
+    stops = '<stop offset="0" stop-color="red"/><stop offset="0.5" stop-color="blue"/><stop offset="1" stop-color="lime"/>'
+    if rng.random() < 0.6:
+        g = '<linearGradient id="g" xlink:href="#t" x1="%d" x2="%d" gradientUnits="userSpaceOnUse"/>' % (rng.randint(0, 10), rng.randint(20, 40))
+        t = '<linearGradient id="t" x1="0" x2="10" gradientUnits="userSpaceOnUse" gradientTransform="%s">%s</linearGradient>' % (tr, stops)
+    else:
+        g = '<radialGradient id="g" xlink:href="#t" cx="%d" cy="%d" gradientUnits="userSpaceOnUse"/>' % (rng.randint(10, 25), rng.randint(10, 25))
+        t = '<radialGradient id="t" cx="5" cy="5" r="%d" gradientUnits="userSpaceOnUse" gradientTransform="%s">%s</radialGradient>' % (rng.randint(12, 25), tr, stops)
+    defs = [g, t] if rng.random() < 0.7 else [t, g]
+    shape = '<rect x="2" y="3" width="60" height="40" fill="url(#g)"%s/>' % rng.choice(["", "", ' transform="translate(10 5)"'])
+    return ('<svg xmlns="http://www.w3.org/2000/svg" xmlns:xlink="http://www.w3.org/1999/xlink" viewBox="0 0 100 80"><defs>%s</defs>%s</svg>'
+            % ("".join(defs), shape))
+
+
+def special_cross_kind(rng):
+    """a radial gradient whose template is a linear one (or the reverse): the attributes common to both kinds — gradientUnits,
+    gradientTransform, spreadMethod — and the stops come from the template; the shape reaches beyond the gradient vector so
+    that the spread method shows"""
+    spread = rng.choice(["reflect", "repeat"])
+    stops = '<stop offset="0" stop-color="red"/><stop offset="1" stop-color="blue"/>'
+    common = rng.choice(['spreadMethod="%s"' % spread, 'spreadMethod="%s" gradientTransform="translate(4 2)"' % spread,
+                         'spreadMethod="%s" gradientUnits="userSpaceOnUse"' % spread])
+    if rng.random() < 0.5:
+        t = '<linearGradient id="t" %s>%s</linearGradient>' % (common, stops)
+        g = ('<radialGradient id="g" xlink:href="#t" cx="30" cy="30" r="12" gradientUnits="userSpaceOnUse"/>' if "userSpaceOnUse" in common
+             else '<radialGradient id="g" xlink:href="#t" cx="0.3" cy="0.3" r="0.15"/>')
+    else:
+        t = '<radialGradient id="t" %s>%s</radialGradient>' % (common, stops)
+        g = ('<linearGradient id="g" xlink:href="#t" x1="20" x2="35" gradientUnits="userSpaceOnUse"/>' if "userSpaceOnUse" in common
+             else '<linearGradient id="g" xlink:href="#t" x1="0.2" x2="0.35"/>')
+    defs = [t, g]
+    rng.shuffle(defs)
+    return ('<svg xmlns="http://www.w3.org/2000/svg" xmlns:xlink="http://www.w3.org/1999/xlink" viewBox="0 0 100 100"><defs>%s</defs>'
+            '<rect x="5" y="5" width="90" height="80" fill="url(#g)"/></svg>' % "".join(defs))
+
+
 def special(rng):
     """user-space gradients whose coordinates are percentages of a non-square viewport"""
     k = rng.random()
-    if k < 0.1:
+    if k < 0.035:
+        return special_cross_kind(rng)
+    if k < 0.07:
+        return special_template_order(rng)
+    if k < 0.14:
         return special_stroke(rng)
-    if k > 0.22:
+    if k > 0.26:
         return None
     w, h = rng.choice([(120, 80), (90, 140), (200, 100)])
     def pc(lo, hi):
